@@ -2,7 +2,7 @@
    each with a characterising lemma so that statements using them do not merely
    restate the model. *)
 From Coq Require Export String Ascii.
-From Coq Require Export List Bool Arith NArith Lia.
+From Coq Require Export List Bool Arith NArith ZArith Lia.
 Export ListNotations.
 Close Scope string_scope.
 
